@@ -4,7 +4,7 @@ tier=${1:-quick}; out=${VERIF_SCRATCH:-/var/tmp/asn1c-verif}/runall-$tier.log
 mkdir -p $(dirname $out); : > $out
 for p in ${PROPS:-C01 C02 C03 C04 C05 C06 C07 C08 C09 C10 C11 C12 C13 C14 C15 C16 C17 C18 C19 C20}; do
   s=$(date +%s)
-  ( cd /verif && timeout ${TMO:-7200} ./check $p --tier $tier > ${out%.log}-$p.out 2>&1 ); rc=$?
+  ( cd "$(dirname "$0")/.." && timeout ${TMO:-7200} ./check $p --tier $tier > ${out%.log}-$p.out 2>&1 ); rc=$?
   e=$(date +%s)
   echo "$p rc=$rc wall=$((e-s))s violations=$(grep -c '^VIOLATION' ${out%.log}-$p.out) known=$(grep -c '^KNOWN-FINDING' ${out%.log}-$p.out)" >> $out
 done
